@@ -266,15 +266,17 @@ def prepare_destination(spec, expected, dst_parent, rng):
     if mode == "absent-deep":
         return os.path.join(dst, gen_name(rng, DIR_NAMES, used), "leaf")
     if not isinstance(expected, dict):
-        # an existing file with other content: longer or shorter
+        # an existing file with other content: longer, shorter or of the same size
         n = len(expected)
         with open(dst, "wb") as f:
-            f.write(rng.randbytes(rng.choice([n + 1, n + 7, 2 * n + 3, max(0, n - 1), n // 2, 3 * n + 100])))
+            f.write(rng.randbytes(rng.choice([n + 1, n + 7, 2 * n + 3, max(0, n - 1), n // 2, 3 * n + 100, n, n, n, n])))
+        if rng.random() < .3:
+            os.utime(dst, (1, 1))            # an old or a new time stamp: neither says anything about the content
         return dst
     os.mkdir(dst)
     if mode == "exists-empty":
         return dst
-    # exists-merge: an unrelated entry, plus colliding files (other content, longer or shorter) for some expected files
+    # exists-merge: an unrelated entry, plus colliding files (other content, longer, shorter or of the same size) for some expected files
     with open(os.path.join(dst, KEEP), "wb") as f:
         f.write(b"keep")
     files = list(walk_files(expected))
@@ -284,7 +286,9 @@ def prepare_destination(spec, expected, dst_parent, rng):
         os.makedirs(d, exist_ok=True)
         n = len(data)
         with open(os.path.join(dst, *rel), "wb") as f:
-            f.write(rng.randbytes(rng.choice([n + 1, n + 9, 2 * n + 5, max(0, n - 1), n // 2])))
+            f.write(rng.randbytes(rng.choice([n + 1, n + 9, 2 * n + 5, max(0, n - 1), n // 2, n, n, n, n])))
+        if rng.random() < .3:
+            os.utime(os.path.join(dst, *rel), (1, 1))
     return dst
 
 
